@@ -321,20 +321,28 @@ where
     let mut result = operand.checked_add(D::from_num(1)).ok_or(())?;
     let mut term = operand;
 
-    for i in 2..D::frac_nbits() {
+    // terms grow until i exceeds the operand and only then decay, so the number
+    // of terms needed depends on the operand; sum until the term vanishes
+    for i in 2..(4 * (D::int_nbits() + D::frac_nbits())) {
         tick(3);
         term = if let Some(r) = term.checked_mul(operand) {
             r
         } else {
             return Err(());
         };
-        //let bits = if let Some(r) = D::from_num(i)
-        //    { r } else { return Err(()) };
-        term = if let Some(r) = term.checked_div(D::from_num(i)) {
+        let divisor = if let Some(r) = D::checked_from_num(i) {
             r
         } else {
             return Err(());
         };
+        term = if let Some(r) = term.checked_div(divisor) {
+            r
+        } else {
+            return Err(());
+        };
+        if term == ZERO {
+            break;
+        }
 
         result = if let Some(r) = result.checked_add(term) {
             r
